@@ -212,6 +212,9 @@ def run_rules(mod, ctx, rep, pid: str) -> None:
     from sa.model import AnalysisError
     try:
         mod.run(ctx, rep)
+        deferred = rep.__dict__.get("_deferred_errors")
+        if deferred:
+            raise AnalysisError("; ".join(deferred))
     except AnalysisError as e:
         known = {f["key"] for f in load_known().get("findings", [])}
         if any(v.key(pid) not in known for v in rep.violations):
